@@ -41,7 +41,9 @@ META_FIELDS = {
 _PROP_ALPHABET = st.sampled_from(list("abcXYZ 019-_.,;:!?()[]'\"<>&%#@/\\+=*") + ["é", "ü", "ß", "Ω", "ж", "中", "日", "€", "™", "—", "😀", "𝔘", " "[0:0] or "ñ"])
 _PROP_BODY = st.text(alphabet=_PROP_ALPHABET, min_size=1, max_size=24).map(lambda s: s.strip()).filter(lambda s: len(s) > 0)
 # values that begin or end with characters a tidy-up step might strip (timestamp 'Z', digits, dots, quotes, brackets)
-PROP_TEXT = st.one_of(_PROP_BODY, _PROP_BODY, st.tuples(st.sampled_from(["", "Z", "T", "0", "(", "'", ".", "-"]), _PROP_BODY, st.sampled_from(["Z", "z", "0", ".", ")", "'", ":", "T00:00:00Z", "-"])).map(lambda t: "".join(t)))
+# values that look like markup escapes: a reader that decodes once more than the file encodes changes them
+_PROP_ESC = st.sampled_from(["R&amp;D team", "a &lt; b &gt; c", "&nbsp;x", "&#65;&#x42;", "100&percnt;", "\\u0041 \\'e9", "%41%20b", "=?utf-8?q?x?=", "&amp;amp;"])
+PROP_TEXT = st.one_of(_PROP_BODY, _PROP_BODY, _PROP_ESC, st.tuples(st.sampled_from(["", "Z", "T", "0", "(", "'", ".", "-"]), _PROP_BODY, st.sampled_from(["Z", "z", "0", ".", ")", "'", ":", "T00:00:00Z", "-"])).map(lambda t: "".join(t)))
 
 
 def props_strategy():
@@ -324,7 +326,16 @@ def _case_strategy(fmt_kind):
         base = st.fixed_dictionaries({"kind": st.just("grid"), "format": st.just(fmt), "grid": sheets.grids(fmt, headers="any", max_sheets=2, max_r=4, max_c=3), "props": props_strategy(), "path": path, "opts": optst})
     else:
         container = "zip" if fmt not in ("pdf", "rtf") else None
-        base = st.fixed_dictionaries({"kind": st.just("images"), "case": c14.cases(fmt), "path": path})
+        def degenerate(t):
+            case, which = t
+            if which:
+                for u in case["units"]:
+                    for it in u:
+                        if it["k"] == "img" and it["type"] == "png":
+                            it["zero"] = which
+                            return case
+            return case
+        base = st.fixed_dictionaries({"kind": st.just("images"), "case": st.tuples(c14.cases(fmt), st.sampled_from([None, None, "h", "w", "both"])).map(degenerate), "path": path})
     mutated = st.tuples(base, mutate.recipes(container, fmt)).map(lambda t: dict(t[0], mutation=t[1], props={}))
     return base, mutated
 
